@@ -75,9 +75,11 @@ type mismatch struct {
 	Kind string `json:"kind"` // "mismatch"
 	Part string `json:"part"`
 	Key  []int  `json:"key,omitempty"`
-	What string `json:"what"`
-	Got  []int  `json:"got"`
-	Want []int  `json:"want"`
+	// Class describes the FULL key when Key is clipped: "empty-key", "brace-key" (contains '{'), "plain-key"
+	Class string `json:"class,omitempty"`
+	What  string `json:"what"`
+	Got   []int  `json:"got"`
+	Want  []int  `json:"want"`
 }
 
 type summary struct {
@@ -115,6 +117,26 @@ var (
 	slotRouter     *redis.VerifRouter
 )
 
+// hashTagOf / crcOf run the real hashtag / crc16 on a generated key; a panic of the real code is a result
+// (panicked / -3), reported by the caller as a mismatch with the key as artefact, never a crash of the harness.
+func hashTagOf(key []byte) (tag []byte, panicked bool) {
+	defer func() {
+		if p := recover(); p != nil {
+			tag, panicked = nil, true
+		}
+	}()
+	return redis.VerifHashTag(key), false
+}
+
+func crcOf(b []byte) (crc int) {
+	defer func() {
+		if p := recover(); p != nil {
+			crc = -3
+		}
+	}()
+	return int(redis.VerifCRC16(b))
+}
+
 func slotOf(key []byte) (slot int) {
 	slotRouterOnce.Do(func() {
 		slotRouter = redis.VerifNewRouter("c12_slotof", []string{"192.0.2.1:7000", "192.0.2.2:7000", "192.0.2.3:7000"})
@@ -142,12 +164,27 @@ type reporter struct {
 	cnt map[string]int64
 }
 
+func keyClass(key []byte) string {
+	switch {
+	case len(key) == 0:
+		return "empty-key"
+	case bytes.IndexByte(key, '{') >= 0:
+		return "brace-key"
+	}
+	return "plain-key"
+}
+
 func (r *reporter) mismatch(part string, key []byte, what string, got, want []int) {
+	r.mismatchOf(part, key, key, what, got, want)
+}
+
+// mismatchOf reports shown (possibly clipped) with the class of the full key.
+func (r *reporter) mismatchOf(part string, full, shown []byte, what string, got, want []int) {
 	r.mu.Lock()
 	defer r.mu.Unlock()
 	r.cnt[part]++
 	if r.cnt[part] <= maxReported {
-		r.w.Write(mismatch{Kind: "mismatch", Part: part, Key: ints(key), What: what, Got: got, Want: want})
+		r.w.Write(mismatch{Kind: "mismatch", Part: part, Key: ints(shown), Class: keyClass(full), What: what, Got: got, Want: want})
 	}
 }
 
@@ -187,14 +224,19 @@ func tables(args []string) error {
 
 	check := func(part string, key []byte) {
 		want := t.expect(key)
-		got := int(redis.VerifCRC16(key))
+		got := crcOf(key)
 		if got != want {
 			rep.mismatch(part, key, "crc16", []int{got}, []int{want})
 		}
+		// every key goes through the real routing function; the value is compared where the whole key is
+		// hashed (no '{'), a panic is reported for any key (the tag rule for keys with '{' is judged in c12-keys)
+		s := slotOf(key)
 		if bytes.IndexByte(key, '{') < 0 {
-			if s := slotOf(key); s != want%16384 {
+			if s != want%16384 {
 				rep.mismatch(part, key, "slot", []int{s}, []int{want % 16384})
 			}
+		} else if s == -3 {
+			rep.mismatch(part, key, "slot", []int{s}, []int{})
 		}
 	}
 	// empty key
@@ -215,8 +257,8 @@ func tables(args []string) error {
 		distinct := 0
 		for a := 0; a < 256; a++ {
 			for b := 0; b < 256; b++ {
-				c := redis.VerifCRC16([]byte{byte(a), byte(b)})
-				if !seen[c] {
+				c := crcOf([]byte{byte(a), byte(b)})
+				if c >= 0 && !seen[c] {
 					seen[c] = true
 					distinct++
 				}
@@ -278,8 +320,10 @@ func keys(args []string) error {
 			tagged++
 		}
 		cp := append([]byte{}, key...)
-		tag := redis.VerifHashTag(cp)
-		if !bytes.Equal(tag, toBytes(v.T)) {
+		tag, panicked := hashTagOf(cp)
+		if panicked {
+			rep.mismatch("brace", key, "hashtag panic", []int{-3}, v.T)
+		} else if !bytes.Equal(tag, toBytes(v.T)) {
 			rep.mismatch("brace", key, "hashtag", ints(tag), v.T)
 		}
 		if !bytes.Equal(cp, key) {
@@ -374,15 +418,17 @@ func random(args []string) error {
 		}
 		want := t.expect(tag)
 		cp := append([]byte{}, key...)
-		gotTag := redis.VerifHashTag(cp)
-		if !bytes.Equal(gotTag, tag) {
-			rep.mismatch("long", clip(key), fmt.Sprintf("hashtag (key length %d)", len(key)), ints(clip(gotTag)), ints(clip(tag)))
+		gotTag, panicked := hashTagOf(cp)
+		if panicked {
+			rep.mismatchOf("long", key, clip(key), fmt.Sprintf("hashtag panic (key length %d)", len(key)), []int{-3}, ints(clip(tag)))
+		} else if !bytes.Equal(gotTag, tag) {
+			rep.mismatchOf("long", key, clip(key), fmt.Sprintf("hashtag (key length %d)", len(key)), ints(clip(gotTag)), ints(clip(tag)))
 		}
-		if c := int(redis.VerifCRC16(tag)); c != want {
-			rep.mismatch("long", clip(key), fmt.Sprintf("crc16 of the tag (tag length %d)", len(tag)), []int{c}, []int{want})
+		if c := crcOf(tag); c != want {
+			rep.mismatchOf("long", key, clip(key), fmt.Sprintf("crc16 of the tag (tag length %d)", len(tag)), []int{c}, []int{want})
 		}
 		if s := slotOf(key); s != want%16384 {
-			rep.mismatch("long", clip(key), fmt.Sprintf("slot (key length %d)", len(key)), []int{s}, []int{want % 16384})
+			rep.mismatchOf("long", key, clip(key), fmt.Sprintf("slot (key length %d)", len(key)), []int{s}, []int{want % 16384})
 		}
 	}
 	rep.summary("long", int64(*n), fmt.Sprintf("with_tag=%d", tagged))
@@ -400,8 +446,13 @@ func random(args []string) error {
 				key[j] = alpha[rng.Intn(len(alpha))]
 			}
 		}
-		tag := redis.VerifHashTag(append([]byte{}, key...))
-		recs = append(recs, traceRec{K: ints(key), T: ints(tag), C: int(redis.VerifCRC16(tag)), S: slotOf(key)})
+		// a panic of the real code is recorded as tag [] / crc -3 / slot -3: TLC rejects the record
+		tag, panicked := hashTagOf(append([]byte{}, key...))
+		c := -3
+		if !panicked {
+			c = crcOf(tag)
+		}
+		recs = append(recs, traceRec{K: ints(key), T: ints(tag), C: c, S: slotOf(key)})
 	}
 	b, err := json.Marshal(recs)
 	if err != nil {
